@@ -314,6 +314,63 @@ def check(P, R):
     R.ob('C01.f', f, rets[0] if rets else f.node, ok, text='get returns (pnode[DATA], {param_keys: pnode[PARAMS], param_values: params, ...})', detail='' if ok else
          'the lookup result does not pair the terminal node\'s names with the collected values')
 
+    # ---- h: the route dispatched is the one the tree lookup selected
+    R.rule('C01.h', 'the dispatched route comes from the tree lookup only', floor=1)
+    uses = [x for x in walk_shallow(rs.node) if isinstance(x, ast.Subscript) and isinstance(x.ctx, ast.Load) and isinstance(x.value, ast.Name)
+            and src(x.slice) == rs.params[2]]
+    R.require(uses, 'resolve: route[methods] not found')
+    for u in uses:
+        un = rs.cfg.node_of_stmt(u)[0]
+        defs = rs.rd.at(un, u.value.id)
+        ok = bool(defs) and all(d.kind == 'unpack' and isinstance(d.value, ast.Call) and dotted(d.value.func) == 'self.radidict.get' and d.index == 0 for d in defs)
+        bad = [d for d in defs if not (d.kind == 'unpack' and isinstance(d.value, ast.Call) and dotted(d.value.func) == 'self.radidict.get')]
+        R.ob('C01.h', rs, u, ok, text=f'{short(u)}: the route comes from self.radidict.get(path) alone', detail='' if ok else
+             f'the route can also be `{short(bad[0].value) if bad and bad[0].value is not None else "?"}`: a lookup that bypasses the tree (e.g. the pattern index, whose keys '
+             f'contain the wildcard marker) selects routes by literal pattern text - a path spelling a wildcard pattern calls the handler without parameters',
+             why='the router selects exactly the route a rule-by-rule matcher selects')
+    # the plain (unfiltered) wildcard consumes up to the next separator at or after the cursor
+    R.rule('C01.i', 'plain wildcard consumes up to the next separator', floor=1)
+    slices = [d for n in g.nodes for d in rd.gen.get(n, []) if d.kind == 'assign' and isinstance(d.value, ast.Subscript) and isinstance(d.value.slice, ast.Slice)
+              and isinstance(d.value.value, ast.Name) and d.value.value.id == roles['route'] and src(d.value.slice.lower) == roles['cursor']
+              and isinstance(d.value.slice.upper, ast.Name) and d.name in [a.args[0].id for a in apps if isinstance(a.args[0], ast.Name)]]
+    R.require(slices, 'RadiDict.get: plain wildcard value `route[i:j]` not found')
+    for d in slices:
+        jn = d.value.slice.upper.id
+        jdefs = rd.at(d.node, jn)
+        form = None
+        det = ''
+        finds = [x for x in jdefs if x.kind == 'assign' and isinstance(x.value, ast.Call) and call_attr(x.value) in ('find', 'index')]
+        inits = [x for x in jdefs if x.kind == 'assign' and isinstance(x.value, ast.Name) and x.value.id == roles['cursor']]
+        if inits and any(x.kind == 'aug' and is_const(x.value, 1) for x in jdefs):
+            # scanning loop: while j < L: if route[j] == SEP: break; j += 1
+            w = [n for n in walk_shallow(f.node) if isinstance(n, ast.While) and compare_parts(n.test) and src(compare_parts(n.test)[0]) == jn
+                 and compare_parts(n.test)[1] is ast.Lt]
+            ok = False
+            for lp in w:
+                brk = [t for t in walk_shallow(lp) if isinstance(t, ast.If) and compare_parts(t.test) and compare_parts(t.test)[1] is ast.Eq
+                       and f'{roles["route"]}[{jn}]' in src(t.test) and any(isinstance(b, ast.Break) for b in t.body)]
+                ok = ok or bool(brk)
+            form, det = ('scan', '' if ok else 'the scanning loop does not stop at the separator')
+        elif finds:
+            fnd = finds[0].value
+            ok = len(fnd.args) == 2 and src(fnd.args[1]) == roles['cursor']
+            det = '' if ok else 'the separator is not searched from the cursor'
+            # the "not found" test must be `< 0` / `== -1`
+            tests = [n for n in g.nodes if n.kind == 'test' and compare_parts(n.ast) and src(compare_parts(n.ast)[0]) == jn and g.can_reach(finds[0].node, n)
+                     and g.can_reach(n, d.node)]
+            good = [n for n in tests if (compare_parts(n.ast)[1] is ast.Lt and is_const(compare_parts(n.ast)[2], 0)) or
+                    (compare_parts(n.ast)[1] is ast.Eq and isinstance(compare_parts(n.ast)[2], ast.UnaryOp)) or
+                    (compare_parts(n.ast)[1] is ast.Eq and is_const(compare_parts(n.ast)[2], -1))]
+            if call_attr(fnd) == 'find' and not good:
+                ok = False
+                det = (f'"no separator ahead" is decided by `{short(tests[0].ast) if tests else "?"}` instead of `{jn} < 0`: a separator exactly at the cursor (an empty '
+                       f'segment) is taken for "not found" and the wildcard swallows the rest of the path')
+            form = 'find'
+        else:
+            ok, det = False, 'cannot recognise how the end of the wildcard value is computed'
+        R.ob('C01.i', f, d.stmt, ok, text=f'{short(d.stmt)} with {jn} = next separator at or after the cursor, else the end [{form}]', detail=det,
+             why='an empty segment is matched by a plain wildcard as the empty string; rules after it must still match')
+
     # ---- g
     st = P.func(f'{RD}:RadiDict._set')
     mcalls = [c for c in walk_shallow(st.node) if isinstance(c, ast.Call) and dotted(c.func) == 'self._make_route']
@@ -433,6 +490,16 @@ def check_idx_pairing(P, R, rid):
     R.ob(rid, tm, whole[0] if whole else tm.node, ok, text='_try_merge: pnode[:] = child (index and children of the child taken together)', detail='' if ok else
          'the merged node does not take the child\'s index and children as a whole')
     n_sites += 1
+    # a wildcard node is never merged with its child, nor a node with its wildcard child
+    gtests = [n for n in tm.cfg.nodes if n.kind == 'test']
+    gsrc = ' '.join(src(n.ast) for n in gtests).replace(' ', '')
+    for (slot, what) in (('KEY', 'the node itself is a wildcard'), ('IDX', 'its only child is a wildcard')):
+        ok = any(compare_parts(x) and compare_parts(x)[1] is ast.Eq and slot_name(compare_parts(x)[0]) == slot and 'param_token' in src(compare_parts(x)[2])
+                 for n in gtests for x in ast.walk(n.ast))
+        R.ob(rid, tm, gtests[0].ast if gtests else tm.node, ok, text=f'_try_merge refuses to merge when {what} ([{slot}] == param_token)', detail='' if ok else
+             f'_try_merge no longer refuses when {what}: after a removal the wildcard node is fused with a literal sibling, its filter is lost and '
+             f'the literal text after the wildcard is no longer checked',
+             why='a value the wildcard filter would reject must never reach a handler', key_extra='merge-' + slot)
     R.require(n_sites >= 6, f'{n_sites} child-list mutation sites found (6 on the pinned tree)')
 
 
